@@ -7,7 +7,13 @@ def run(ctx):
                          "min <= tmpw <= max, approx = harmonic combination <= min(vf, vb), lower <= tmpw_var, all variances > 0 and finite are evaluated exactly at every (x, time)")
     ctx.trusted += ["harness vlib/props/c05.py / c06.py"]
     ctx.assumptions += ["ordering tests carry a relative slack of 2^-40", "intensities and noise variances positive (generator)"]
-    c05.run_params(ctx, c05.gen_params(ctx, double_only=True), "c06", c05.WHAT6)
+    plist = c05.gen_params(ctx, double_only=True)
+    rng = ctx.rng("c06-attenuated")
+    from vlib import calib
+    for k in range(2 if ctx.quick else 12):  # intensity-dependent (callable / per-cell) variances on strongly attenuated fibres: the four channels differ by orders of magnitude
+        plist.append(calib.random_params(rng, True, quick=True, nta=k % 2, nx=int(rng.integers(16, 22)), noise=0.01, nmatch=0, var_mode=["callable", "array_prop"][k // 2 % 2],
+                                         power_loss=float([3.0, 1.5, 5.0][k % 3])))
+    c05.run_params(ctx, plist, "c06", c05.WHAT6)
 
 
 def replay(ctx, data):
